@@ -16,14 +16,14 @@ Everything else (names, types, modes, extended attributes, encodings, unknown el
 
 /-! ### text is what it was -/
 
-theorem allText_adjustKids (N : Num) (d : Int) (b : Bool) : ∀ ks, allText (adjustKids N d b ks) = allText ks
+theorem allText_adjustKids (N : Num) (ea : Bool) (d : Int) (b : Bool) : ∀ ks, allText (adjustKids N ea d b ks) = allText ks
   | [] => by simp [adjustKids]
-  | .tx s :: ks => by simp [adjustKids, adjust, allText, allText_adjustKids N d b ks]
+  | .tx s :: ks => by simp [adjustKids, adjust, allText, allText_adjustKids N ea d b ks]
   | .el n as k :: ks => by
     simp only [adjustKids, adjust]
     split
-    · split <;> simp [allText, allText_adjustKids N d b ks]
-    · simp [allText, allText_adjustKids N d b ks]
+    · split <;> simp [allText, allText_adjustKids N ea d b ks]
+    · simp [allText, allText_adjustKids N ea d b ks]
 
 theorem etext_allTx : ∀ ks, allTx ks = true → allText ks = etext ks
   | [], _ => by simp [allText, etext]
@@ -32,11 +32,11 @@ theorem etext_allTx : ∀ ks, allTx ks = true → allText ks = etext ks
     simp [allText, etext, etext_allTx ks this]
   | .el n as k :: ks, h => by simp [allTx] at h
 
-theorem adjustKids_allTx (N : Num) (d : Int) (b : Bool) : ∀ ks, allTx ks = true → adjustKids N d b ks = ks
+theorem adjustKids_allTx (N : Num) (ea : Bool) (d : Int) (b : Bool) : ∀ ks, allTx ks = true → adjustKids N ea d b ks = ks
   | [], _ => by simp [adjustKids]
   | .tx s :: ks, h => by
     have : allTx ks = true := by simpa [allTx] using h
-    simp [adjustKids, adjust, adjustKids_allTx N d b ks this]
+    simp [adjustKids, adjust, adjustKids_allTx N ea d b ks this]
   | .el n as k :: ks, h => by simp [allTx] at h
 
 theorem dropWhile_allTx : ∀ ks : List Xml, allTx ks = true → ks.dropWhile (·.isTx) = []
@@ -59,16 +59,16 @@ theorem intOf_numOk (N : Num) (hN : N.Laws) (ks : List Xml) (h : numOk N ks = tr
   simp [intOf, ht, hne, hN.trim _ h.2, h.2]
 
 /-- a regular `<offset>` element after the shift: still regular, and it reads as the shifted value -/
-theorem offset_shifted (N : Num) (hN : N.Laws) (d : Int) (as : List (String × String)) (ks : List Xml) (h : numOk N ks = true) :
-    adjust N d true (.el "offset" as ks) = .el "offset" as [.tx (N.fmt (w64 ((N.atoi (etext ks)).1 + d)))] ∧
+theorem offset_shifted (N : Num) (ea : Bool) (hN : N.Laws) (d : Int) (as : List (String × String)) (ks : List Xml) (h : numOk N ks = true) :
+    adjust N ea d true (.el "offset" as ks) = .el "offset" as [.tx (N.fmt (w64 ((N.atoi (etext ks)).1 + d)))] ∧
     numOk N [.tx (N.fmt (w64 ((N.atoi (etext ks)).1 + d)))] = true ∧
     (N.atoi (etext [Xml.tx (N.fmt (w64 ((N.atoi (etext ks)).1 + d)))])).1 = w64 ((N.atoi (etext ks)).1 + d) := by
   have h' := h
   simp only [numOk, Bool.and_eq_true] at h
-  have e1 : ("offset" == "data") = false := by decide
+  have e1 : isRef ea "offset" = false := isRef_false ea _ (by decide) (by decide)
   have e2 : (true && "offset" == "offset") = true := by decide
   refine ⟨?_, ?_, ?_⟩
-  · simp only [adjust, e1, e2, ↓reduceIte, adjustKids_allTx N d false ks h.1, h.2, setText, dropWhile_allTx ks h.1]
+  · simp only [adjust, e1, e2, ↓reduceIte, adjustKids_allTx N ea d false ks h.1, h.2, setText, dropWhile_allTx ks h.1]
   · simp [numOk, allTx, etext, hN.rt _ (w64_inI64 _)]
   · simp [etext, hN.rt _ (w64_inI64 _)]
 
@@ -108,15 +108,15 @@ theorem umData_offset_frame (N : Num) (o : Int) : ∀ (ks : List Xml) (a : FileA
         · exact umData_offset_frame N o ks a hc
 
 /-- `<data>` with regular children and at most one `<offset>`: the shifted document reads as the shifted field -/
-theorem umData_adjust (N : Num) (hN : N.Laws) (d : Int) : ∀ (ks : List Xml) (a : FileAcc), ks.all (regDataKid N) = true →
+theorem umData_adjust (N : Num) (ea : Bool) (hN : N.Laws) (d : Int) : ∀ (ks : List Xml) (a : FileAcc), ks.all (regDataKid N) = true →
     count "offset" ks ≤ 1 →
-    umData N (adjustKids N d true ks) a =
+    umData N (adjustKids N ea d true ks) a =
       (umData N ks a).map fun a' => if count "offset" ks = 1 then a'.shift d else a'
   | [], a, _, _ => by simp [umData, adjustKids, count, named]
   | .tx s :: ks, a, hr, hc => by
     rw [count_cons_tx] at hc ⊢
     have hr' : ks.all (regDataKid N) = true := by simpa [regDataKid] using hr
-    simpa [umData, adjustKids, adjust] using umData_adjust N hN d ks a hr' hc
+    simpa [umData, adjustKids, adjust] using umData_adjust N ea hN d ks a hr' hc
   | .el n as k :: ks, a, hr, hc => by
     rw [count_cons_el] at hc ⊢
     simp only [List.all_cons, Bool.and_eq_true] at hr
@@ -125,17 +125,17 @@ theorem umData_adjust (N : Num) (hN : N.Laws) (d : Int) : ∀ (ks : List Xml) (a
     · subst hoff
       have hnum : numOk N k = true := by simpa [regDataKid] using hk
       have hc0 : count "offset" ks = 0 := by simp at hc; omega
-      obtain ⟨e1, e2, e3⟩ := offset_shifted N hN d as k hnum
+      obtain ⟨e1, e2, e3⟩ := offset_shifted N ea hN d as k hnum
       simp only [adjustKids, e1, umData, ↓reduceIte, intOf_numOk N hN _ e2, e3, intOf_numOk N hN _ hnum, Option.bind_some]
-      rw [umData_adjust N hN d ks _ hr' (by omega), hc0]
+      rw [umData_adjust N ea hN d ks _ hr' (by omega), hc0]
       simp only [Nat.add_zero, ↓reduceIte, Nat.zero_ne_one]
       rw [umData_offset_frame N _ ks a hc0, umData_offset_frame N (N.atoi (etext k)).1 ks a hc0]
       cases umData N ks a <;> simp [FileAcc.shift]
     · have hcount : count "offset" ks ≤ 1 := by simp [hoff] at hc; exact hc
-      have ih := fun a => umData_adjust N hN d ks a hr' hcount
-      have hd : (n == "data") = false ∨ True := Or.inr trivial
-      have hadj : ∃ k', adjust N d true (.el n as k) = .el n as k' ∧ allText k' = allText k ∧ intOf N k' = intOf N k := by
-        refine ⟨adjustKids N d (n == "data") k, ?_, allText_adjustKids N d _ k, ?_⟩
+      have ih := fun a => umData_adjust N ea hN d ks a hr' hcount
+      have hd : (isRef ea n) = false ∨ True := Or.inr trivial
+      have hadj : ∃ k', adjust N ea d true (.el n as k) = .el n as k' ∧ allText k' = allText k ∧ intOf N k' = intOf N k := by
+        refine ⟨adjustKids N ea d (isRef ea n) k, ?_, allText_adjustKids N ea d _ k, ?_⟩
         · simp [adjust, hoff]
         · simp [intOf, allText_adjustKids]
       obtain ⟨k', ek, et, ei⟩ := hadj
@@ -244,21 +244,21 @@ theorem umFileKids_offset_frame (N : Num) (d : Int) : ∀ (ks : List Xml) (a : F
 theorem regFileKids_cons (N : Num) (k : Xml) (ks : List Xml) : regFileKids N (k :: ks) = (regFile N k && regFileKids N ks) := by
   simp [regFileKids]
 
-theorem adjust_el_plain (N : Num) (d : Int) (n : String) (as : List (String × String)) (k : List Xml) :
-    adjust N d false (.el n as k) = .el n as (adjustKids N d (n == "data") k) := by
+theorem adjust_el_plain (N : Num) (ea : Bool) (d : Int) (n : String) (as : List (String × String)) (k : List Xml) :
+    adjust N ea d false (.el n as k) = .el n as (adjustKids N ea d (isRef ea n) k) := by
   simp [adjust]
 
 /-- the children of a regular `<file>` with at most one `<data>`: `encoding/xml` reads the shifted document as the shift of
     what it read before (fields and nested files) -/
-theorem umFileKids_adjust (N : Num) (hN : N.Laws) (d : Int) : ∀ (ks : List Xml) (a : FileAcc), regFileKids N ks = true →
+theorem umFileKids_adjust (N : Num) (ea : Bool) (hN : N.Laws) (d : Int) : ∀ (ks : List Xml) (a : FileAcc), regFileKids N ks = true →
     count "data" ks ≤ 1 →
-    umFileKids N (adjustKids N d false ks) a =
+    umFileKids N (adjustKids N ea d false ks) a =
       (umFileKids N ks a).map fun r => (if count "data" ks = 1 then r.1.shift d else r.1, shiftXs d r.2)
   | [], a, _, _ => by simp [umFileKids, adjustKids, count, named, shiftXs]
   | .tx s :: ks, a, hr, hc => by
     rw [count_cons_tx] at hc ⊢
     rw [regFileKids_cons] at hr
-    simpa [umFileKids, adjustKids, adjust] using umFileKids_adjust N hN d ks a (by simpa [regFile] using hr) hc
+    simpa [umFileKids, adjustKids, adjust] using umFileKids_adjust N ea hN d ks a (by simpa [regFile] using hr) hc
   | .el n as k :: ks, a, hr, hc => by
     rw [count_cons_el] at hc ⊢
     rw [regFileKids_cons, Bool.and_eq_true] at hr
@@ -268,20 +268,20 @@ theorem umFileKids_adjust (N : Num) (hN : N.Laws) (d : Int) : ∀ (ks : List Xml
     · subst hname
       have hcount : count "data" ks ≤ 1 := by simpa using hc
       have e : ¬ "name" = "data" := by decide
-      simpa [umFileKids, allText_adjustKids, e] using umFileKids_adjust N hN d ks _ hr' hcount
+      simpa [umFileKids, allText_adjustKids, e] using umFileKids_adjust N ea hN d ks _ hr' hcount
     · by_cases hdata : n = "data"
       · subst hdata
         have hc0 : count "data" ks = 0 := by simp at hc; omega
         have hreg : regData N k = true := by simpa [regFile] using hk
         simp only [regData, Bool.and_eq_true, beq_iff_eq, decide_eq_true_eq] at hreg
         obtain ⟨⟨⟨h1, h2⟩, _⟩, _⟩ := hreg
-        have e1 : ("data" == "data") = true := by decide
-        simp only [umFileKids, hname, ↓reduceIte, e1, umData_adjust N hN d k _ h1 (by omega), h2]
+        have e1 : isRef ea "data" = true := by simp [isRef]
+        simp only [umFileKids, hname, ↓reduceIte, e1, umData_adjust N ea hN d k _ h1 (by omega), h2]
         cases hu : umData N k { a with hasData := true } with
         | none => simp
         | some a' =>
           simp only [Option.map_some]
-          rw [umFileKids_adjust N hN d ks (a'.shift d) hr' (by omega), umFileKids_offset_frame N d ks a' hc0, hc0]
+          rw [umFileKids_adjust N ea hN d ks (a'.shift d) hr' (by omega), umFileKids_offset_frame N d ks a' hc0, hc0]
           cases umFileKids N ks a' with
           | none => simp
           | some r => simp
@@ -289,9 +289,9 @@ theorem umFileKids_adjust (N : Num) (hN : N.Laws) (d : Int) : ∀ (ks : List Xml
         by_cases hfile : n = "file"
         · subst hfile
           have hreg : regFileKids N k = true ∧ count "data" k ≤ 1 := by simpa [regFile] using hk
-          have e1 : ("file" == "data") = false := by decide
-          simp only [umFileKids, hname, hdata, ↓reduceIte, e1, umFileKids_adjust N hN d k {} hreg.1 hreg.2,
-            umFileKids_adjust N hN d ks a hr' hcount, Nat.zero_add]
+          have e1 : isRef ea "file" = false := isRef_false ea _ (by decide) (by decide)
+          simp only [umFileKids, hname, hdata, ↓reduceIte, e1, umFileKids_adjust N ea hN d k {} hreg.1 hreg.2,
+            umFileKids_adjust N ea hN d ks a hr' hcount, Nat.zero_add]
           cases hk1 : umFileKids N k {} with
           | none => simp
           | some r1 =>
@@ -307,7 +307,7 @@ theorem umFileKids_adjust (N : Num) (hN : N.Laws) (d : Int) : ∀ (ks : List Xml
                   simp [this, hd]
               simp [shiftXs, shiftX, this]
         · simp only [umFileKids, hname, hdata, hfile, ↓reduceIte, Nat.zero_add]
-          exact umFileKids_adjust N hN d ks a hr' hcount
+          exact umFileKids_adjust N ea hN d ks a hr' hcount
 
 /-! ### the `<toc>` level -/
 
@@ -427,22 +427,22 @@ theorem unmarshal_one_toc (N : Num) (rn : String) (ras : List (String × String)
   | none => simp
   | some t => simp [umRootKids_notoc N post _ hpost]
 
-theorem umFiles_adjust (N : Num) (hN : N.Laws) (d : Int) : ∀ (ks : List Xml), regFileKids N ks = true →
-    umFiles N (adjustKids N d false ks) = (umFiles N ks).map (shiftXs d)
+theorem umFiles_adjust (N : Num) (ea : Bool) (hN : N.Laws) (d : Int) : ∀ (ks : List Xml), regFileKids N ks = true →
+    umFiles N (adjustKids N ea d false ks) = (umFiles N ks).map (shiftXs d)
   | [], _ => by simp [umFiles, adjustKids, shiftXs]
   | .tx s :: ks, h => by
     rw [regFileKids_cons] at h
-    simpa [umFiles, adjustKids, adjust] using umFiles_adjust N hN d ks (by simpa [regFile] using h)
+    simpa [umFiles, adjustKids, adjust] using umFiles_adjust N ea hN d ks (by simpa [regFile] using h)
   | .el n as k :: ks, h => by
     rw [regFileKids_cons, Bool.and_eq_true] at h
     obtain ⟨hk, hr⟩ := h
-    simp only [adjustKids, adjust_el_plain, umFiles, umFiles_adjust N hN d ks hr]
+    simp only [adjustKids, adjust_el_plain, umFiles, umFiles_adjust N ea hN d ks hr]
     split
     · rename_i hf
       subst hf
       have hreg : regFileKids N k = true ∧ count "data" k ≤ 1 := by simpa [regFile] using hk
-      have e1 : ("file" == "data") = false := by decide
-      simp only [umFile, e1, umFileKids_adjust N hN d k {} hreg.1 hreg.2]
+      have e1 : isRef ea "file" = false := isRef_false ea _ (by decide) (by decide)
+      simp only [umFile, e1, umFileKids_adjust N ea hN d k {} hreg.1 hreg.2]
       cases hk1 : umFileKids N k {} with
       | none => simp
       | some r1 =>
@@ -553,30 +553,38 @@ theorem regFileKids_removeSigs (N : Num) : ∀ ks, regFileKids N ks = true → r
     are regular, which has no second `<toc>`, and which `encoding/xml` accepts.  Then `encoding/xml` reads the serialised
     document as: the new checksum / signature / x-signature elements with the sizes and certificates of the key, and the
     files it read from `t`, those with a `<data>` element shifted by `newSigSize − origSigSize`. -/
-theorem unmarshal_signed (N : Num) (hN : N.Laws) (hk : HK) (ki : KeyInfo) (hki : ki.small) (t : Xml) (p : Prep) (x0 : XToc)
+theorem unmarshal_shifted (N : Num) (ea : Bool) (hN : N.Laws) (hk : HK) (ki : KeyInfo) (hki : ki.small) (t : Xml) (p : Prep) (x0 : XToc) (d : Int)
     (e : prep N hk ki t = some p) (hu : unmarshal N t = some x0)
     (hreg : ∀ ras pre tas tks post, t = .el "xar" ras (pre ++ .el "toc" tas tks :: post) → (∀ k ∈ pre, k.isEl "toc" = false) →
       (∀ k ∈ post, k.isEl "toc" = false) ∧ regFileKids N tks = true) :
-    unmarshal N (p.tree N) = some { tocOfKey hk ki with files := shiftXs (w64 (p.newSig - p.origSig)) x0.files } := by
+    unmarshal N (adjust N ea d false p.doc1) = some { tocOfKey hk ki with files := shiftXs d x0.files } := by
   obtain ⟨ras, pre, tas, tks, post, rfl, hp, rfl⟩ := prep_some N hk ki t p e
   obtain ⟨hpost, hr⟩ := hreg ras pre tas tks post rfl hp
   rw [unmarshal_one_toc N "xar" ras pre tas tks post hp hpost] at hu
   obtain ⟨fs, hfs, hx0⟩ := umTocKids_files N tks emptyToc x0 hu
-  simp only [Prep.tree, adjust_doc, adjustKids_append, adjustKids_noData N _ _ (noDataL_reserve N hk ki)]
-  rw [unmarshal_one_toc N "xar" ras _ tas _ _ (isEl_adjustKids_false N _ false "toc" pre hp)
-    (isEl_adjustKids_false N _ false "toc" post hpost), umTocKids_append, umTocKids_reserve N hN hk ki hki]
-  have hns : ∀ k ∈ adjustKids N (w64 ((reserve N hk ki).2 - w64 (removeSigs N tks).1)) false (removeSigs N tks).2, k.isSig = false := by
+  simp only [adjust_doc, adjustKids_append, adjustKids_noRef N ea _ _ (noRefL_reserve N ea hk ki)]
+  rw [unmarshal_one_toc N "xar" ras _ tas _ _ (isEl_adjustKids_false N ea _ false "toc" pre hp)
+    (isEl_adjustKids_false N ea _ false "toc" post hpost), umTocKids_append, umTocKids_reserve N hN hk ki hki]
+  have hns : ∀ k ∈ adjustKids N ea d false (removeSigs N tks).2, k.isSig = false := by
     intro k hmem
-    have := removeSigs_adjustKids N (w64 ((reserve N hk ki).2 - w64 (removeSigs N tks).1)) (removeSigs N tks).2
+    have := removeSigs_adjustKids N ea d (removeSigs N tks).2
     rw [removeSigs_nosig N _ (removeSigs_snd_nosig N tks)] at this
-    have h2 := removeSigs_snd_nosig N (adjustKids N (w64 ((reserve N hk ki).2 - w64 (removeSigs N tks).1)) false (removeSigs N tks).2)
+    have h2 := removeSigs_snd_nosig N (adjustKids N ea d false (removeSigs N tks).2)
     rw [this] at h2
     exact h2 k hmem
   have hreg2 : regFileKids N (removeSigs N tks).2 = true := regFileKids_removeSigs N tks hr
   simp only [Option.bind_some]
-  rw [umTocKids_nosig N _ _ hns, umFiles_adjust N hN _ _ hreg2, hfs]
+  rw [umTocKids_nosig N _ _ hns, umFiles_adjust N ea hN _ _ hreg2, hfs]
   simp [tocOfKey, hx0, emptyToc]
   cases ki.rsaSize <;> simp
+
+/-- the same for the shift `Sign` applies -/
+theorem unmarshal_signed (N : Num) (ea : Bool) (hN : N.Laws) (hk : HK) (ki : KeyInfo) (hki : ki.small) (t : Xml) (p : Prep) (x0 : XToc)
+    (e : prep N hk ki t = some p) (hu : unmarshal N t = some x0)
+    (hreg : ∀ ras pre tas tks post, t = .el "xar" ras (pre ++ .el "toc" tas tks :: post) → (∀ k ∈ pre, k.isEl "toc" = false) →
+      (∀ k ∈ post, k.isEl "toc" = false) ∧ regFileKids N tks = true) :
+    unmarshal N (p.tree N ea) = some { tocOfKey hk ki with files := shiftXs (w64 (p.newSig - p.origSig)) x0.files } :=
+  unmarshal_shifted N ea hN hk ki hki t p x0 _ e hu hreg
 
 /-! ### the etree reader sees every member the `encoding/xml` reader sees -/
 
